@@ -8,7 +8,8 @@
 //! wall time.
 
 use proptest::strategy::{BoxedStrategy, Strategy};
-use proptest::test_runner::{Config, RngSeed, TestCaseError, TestError, TestRunner};
+use proptest::strategy::ValueTree;
+use proptest::test_runner::{Config, RngAlgorithm, RngSeed, TestCaseError, TestError, TestRng, TestRunner};
 use serde::de::DeserializeOwned;
 use serde::{Deserialize, Serialize};
 use serde_json::{json, Value};
@@ -861,4 +862,62 @@ pub fn chunk(n: usize, k: usize, m: usize) -> std::ops::Range<usize> {
     let start = k * base + k.min(rem);
     let len = base + usize::from(k < rem);
     start..(start + len)
+}
+
+// ---------------------------------------------------------------------------------------------
+// coverage-guided fuzzing support: the fuzzer's bytes ARE the random stream of the property's
+// own proptest strategy (proptest's pass-through RNG), so every generator, reference model and
+// oracle of the property is reused unchanged and libFuzzer's mutations steer the generators.
+
+/// Build a case of the property's first random stage from raw bytes.
+pub fn case_from_bytes<P: Property>(p: &P, data: &[u8]) -> Option<P::Case> {
+    let strat = p.plan(Tier::Quick).into_iter().find_map(|s| match s {
+        Stage::Random { strategy, .. } => Some(strategy()),
+        _ => None,
+    })?;
+    let cfg = Config { failure_persistence: None, ..Config::default() };
+    // (the vendored proptest continues an exhausted pass-through stream pseudo-randomly)
+    let mut runner = TestRunner::new_with_rng(cfg, TestRng::from_seed(RngAlgorithm::PassThrough, data));
+    strat.new_tree(&mut runner).ok().map(|t| t.current())
+}
+
+/// What one fuzz iteration found.
+pub enum FuzzOutcome {
+    Pass { nontrivial: bool },
+    Known,
+    /// a violation; the replay file (plain Case JSON, usable with `--replay`) has been written
+    Violation { replay: PathBuf, failure: Failure },
+    Unbuildable,
+}
+
+pub fn fuzz_one<P: Property>(p: &P, known: &[KnownFinding], data: &[u8]) -> FuzzOutcome {
+    let case = match catch(|| case_from_bytes(p, data)) {
+        Ok(Some(c)) => c,
+        _ => return FuzzOutcome::Unbuildable,
+    };
+    fuzz_case(p, known, case)
+}
+
+pub fn fuzz_case<P: Property>(p: &P, known: &[KnownFinding], case: P::Case) -> FuzzOutcome {
+    let v = checked(p, &case);
+    match v.failure {
+        None => FuzzOutcome::Pass { nontrivial: v.nontrivial },
+        Some(f) => {
+            if known_match(known, &f).is_some() {
+                return FuzzOutcome::Known;
+            }
+            if f.clause.starts_with("oracle-self-check") || f.clause.starts_with("generator |") || f.clause.starts_with("infrastructure |") {
+                return FuzzOutcome::Unbuildable;
+            }
+            let opts = Opts { tier: Tier::Thorough, seed: 0, threads: 1, replay: None };
+            let found = Found { case, failure: f.clone(), stage: "libfuzzer", shrunk: false };
+            let mut path = write_replay(p.id(), &opts, &found);
+            // distinguish fuzz finds from proptest finds by name
+            let renamed = path.with_file_name(path.file_name().unwrap().to_string_lossy().replacen("v-", "fz-", 1));
+            if std::fs::rename(&path, &renamed).is_ok() {
+                path = renamed;
+            }
+            FuzzOutcome::Violation { replay: path, failure: f }
+        }
+    }
 }
